@@ -726,8 +726,16 @@ def r3(ctx: RuleCtx) -> None:
     mod = ctx.repo.module(OPT)
     qn = 'OptionStore.get_option_and_value_for'
     fn = mod.func(qn)
-    rows = S.Sym(fn).rows()
+    # the option object's pure accessors (closed-world unique, call-free bodies) read as their bodies: `o.effective()` whose
+    # body is `if self.yielding: return self.parent.value; return self.value` is the same lookup as the inline spelling
+    with S.accessors():
+        rows = S.Sym(fn).rows()
     tab = S.to_table(rows, qn)
+    for r_ in rows:
+        if r_.outcome[0] == 'return' and r_.value is not None:
+            for c_ in ast.walk(r_.value):
+                if isinstance(c_, ast.Call) and not (is_call(c_, 'ensure_and_validate_key') or is_call(c_, 'resolve_option')):
+                    raise Undecided(f'{qn}: the result is computed by a call whose body was not read: {short(c_)}')
     K = P('self.ensure_and_validate_key(ARG1)')
     O = P(f'self.resolve_option({K})')
     aug, yld = A(f'{K} in self.augments'), A(f'{O}.yielding')
@@ -1830,52 +1838,152 @@ def r9(ctx: RuleCtx) -> None:
                     pops[norm(f.node[1])] = f.node[1]
         if not pops:
             continue       # value dropped on purpose (Expr statement pop): nothing is promised
-        if len(pops) != 1:
-            raise Undecided(f'{qn}: several pending values are popped: {sorted(pops)}')
-        PV = next(iter(pops))
-        K = norm(pops[PV].args[0])
         n += 1
-        is_none, truthy = A(f'{PV} is None'), A(PV)
-        apply = P(f'self.set_option({K}, {PV})')
-        napplied = ndropped = 0
-        bad = None
-        for r in rows:
-            if r.outcome[0] == 'raise' or not any(f.kind == 'let' and norm(f.node[1]) == PV for f in r.fx):
-                continue
-            calls = [f for f in r.fx if f.kind == 'call' and (is_call(f.node, 'set_option') or is_call(f.node, 'set_user_option')) and PV in f.text]
-            hidden = [f for f in foreign_calls(r.fx, ('set_option', 'set_user_option', 'pop', fn.name)) if PV in f.text]
-            if hidden:
-                raise Undecided(f'{qn}: the pending value is handed to {hidden[0].text}')
-            if calls and [f.text for f in calls] != [apply]:
-                raise Undecided(f'{qn}: pending value used in an unknown way: {[f.text for f in calls]}')
-            others = [a for a in r.conds if PV in repr(a) and a not in (is_none, truthy)]
-            if others:
-                raise Undecided(f'{qn}: the pending value is tested in an unknown way: {others}')
-            if calls:
-                napplied += 1
-                if r.conds.get(is_none) is True:
-                    bad = (r, f'{apply} runs on the path where nothing was pending (the value is the None sentinel), so real pending values take the other branch and are dropped')
-                    break
-                if r.conds.get(is_none) is not False and r.conds.get(truthy) is not True:
-                    raise Undecided(f'{qn}: the pending value is applied without a test on the path {r!r}')
-            else:
-                ndropped += 1
-                if r.conds.get(is_none) is True:
+        # every value taken out of pending_options is judged on its own: the paths that pop it, what is done with it on them
+        for PV in sorted(pops):
+            K = norm(pops[PV].args[0])
+            is_none, truthy = A(f'{PV} is None'), A(PV)
+            apply = P(f'self.set_option({K}, {PV})')
+            napplied = ndropped = 0
+            bad = None
+            for r in rows:
+                if r.outcome[0] == 'raise' or not any(f.kind == 'let' and norm(f.node[1]) == PV for f in r.fx):
                     continue
-                if r.conds.get(is_none) is False:
-                    bad = (r, f'a value that was pending (not None) is taken out of pending_options and not applied')
-                    break
-                if r.conds.get(truthy) is False and is_none not in r.conds:
-                    bad = (r, f'a pending value that is falsy (False, 0, "", []) is taken out of pending_options and dropped: the guard of {apply} tests its truth, '
-                              f'but None is the only "nothing pending" sentinel of the pop')
-                    break
-                raise Undecided(f'{qn}: the pending value is dropped for an unknown reason on the path {r!r}')
-        if bad is not None:
-            ctx.violation(mod, qn, f'if {PV}', bad[1], fn, path=repr(bad[0]))
-        else:
-            ctx.ok(f'{qn}: the value popped from pending_options is applied through set_option(key, value) exactly when it is not the None sentinel ({napplied} paths apply, {ndropped} had nothing pending)')
-        ctx.floor(f'{qn}: paths applying a pending value', napplied, 1)
+                calls = [f for f in r.fx if f.kind == 'call' and (is_call(f.node, 'set_option') or is_call(f.node, 'set_user_option')) and PV in f.text]
+                hidden = [f for f in foreign_calls(r.fx, ('set_option', 'set_user_option', 'pop', fn.name)) if PV in f.text]
+                if hidden:
+                    raise Undecided(f'{qn}: the pending value is handed to {hidden[0].text}')
+                if calls and [f.text for f in calls] != [apply]:
+                    raise Undecided(f'{qn}: pending value used in an unknown way: {[f.text for f in calls]}')
+                others = [a for a in r.conds if PV in repr(a) and a not in (is_none, truthy)]
+                if others:
+                    raise Undecided(f'{qn}: the pending value is tested in an unknown way: {others}')
+                if calls:
+                    napplied += 1
+                    if r.conds.get(is_none) is True:
+                        bad = (r, f'{apply} runs on the path where nothing was pending (the value is the None sentinel), so real pending values take the other branch and are dropped')
+                        break
+                    if r.conds.get(is_none) is not False and r.conds.get(truthy) is not True:
+                        raise Undecided(f'{qn}: the pending value is applied without a test on the path {r!r}')
+                else:
+                    ndropped += 1
+                    if r.conds.get(is_none) is True:
+                        continue
+                    if r.conds.get(is_none) is False:
+                        bad = (r, f'a value that was pending (not None) is taken out of pending_options and not applied')
+                        break
+                    if r.conds.get(truthy) is False and is_none not in r.conds:
+                        bad = (r, f'a pending value that is falsy (False, 0, "", []) is taken out of pending_options and dropped: the guard of {apply} tests its truth, '
+                                  f'but None is the only "nothing pending" sentinel of the pop')
+                        break
+                    raise Undecided(f'{qn}: the pending value is dropped for an unknown reason on the path {r!r}')
+            if bad is not None:
+                ctx.violation(mod, qn, f'if {PV}', bad[1], fn, path=repr(bad[0]))
+            else:
+                ctx.ok(f'{qn}: the value popped from pending_options for {K} is applied through set_option(key, value) exactly when it is not the None sentinel ({napplied} paths apply, {ndropped} had nothing pending)')
+            ctx.floor(f'{qn}: paths applying the pending value of {K}', napplied, 1)
     ctx.floor('functions that take a value out of pending_options', n, 1)
+
+
+# ---------------------------------------------------------------------------
+# R10  keys read from the machine file of the BUILD machine are build-machine keys
+ENVF = 'mesonbuild/environment.py'
+
+
+def _key_chain(e: ast.AST, M: str) -> T.Optional[T.List[str]]:
+    """The machine-relevant links of a key expression `OptionKey.from_string(..)[.evolve(..)]*`, innermost first:
+    'parsed' | 'keep' (an evolve that leaves the machine) | 'to-M' (machine := the machine parameter) | 'to-build' | 'to-host' |
+    'to:<expr>'.  None: not a chain of the known key constructors."""
+    out: T.List[str] = []
+    while True:
+        if not (isinstance(e, ast.Call) and isinstance(e.func, ast.Attribute)):
+            return None
+        name, recv = e.func.attr, e.func.value
+        if name == 'from_string' and isinstance(recv, ast.Name) and recv.id == 'OptionKey':
+            out.append('parsed')
+            return out[::-1]
+        if name in ('as_build', 'as_host') and not e.args and not e.keywords:
+            out.append('to-build' if name == 'as_build' else 'to-host')
+        elif name == 'evolve':
+            if any(isinstance(a, ast.Starred) for a in e.args) or any(k.arg is None for k in e.keywords):
+                return None
+            m = kw_(e, 'machine') if len(e.args) < 3 else e.args[2]
+            if m is None or (isinstance(m, ast.Constant) and m.value is None):
+                out.append('keep')
+            else:
+                t = norm(m)
+                out.append('to-M' if t == M else 'to-build' if t.endswith('MachineChoice.BUILD') else 'to-host' if t.endswith('MachineChoice.HOST') else f'to:{t}')
+        else:
+            return None
+        e = recv
+
+
+def kw_(c: ast.Call, name: str) -> T.Optional[ast.AST]:
+    for k in c.keywords:
+        if k.arg == name:
+            return k.value
+    return None
+
+
+def r10(ctx: RuleCtx) -> None:
+    _signatures(ctx)
+    mod = ctx.repo.module(ENVF)
+    qn = 'Environment.mfilestr2key'
+    fn = mod.func(qn)
+    plain = [a for a in fn.args.posonlyargs + fn.args.args if a.arg not in ('self', 'cls')]
+    which = [i for i, a in enumerate(plain, 1) if a.annotation is not None and norm(a.annotation).strip('\'"').split('.')[-1] == 'MachineChoice']
+    if len(which) != 1:
+        raise Undecided(f'{qn}: expected exactly one parameter annotated MachineChoice (the machine the file is read for), found {len(which)}')
+    M = f'ARG{which[0]}'
+    rows = S.Sym(fn).rows()
+    # who else re-keys what this function returns: a caller that evolves the machine itself makes this reading incomplete
+    outside = []
+    for q2, f2 in mod.funcs().items():
+        if f2 is fn or '#' in q2 or not any(is_call(c, fn.name) for c in ast.walk(f2) if isinstance(c, ast.Call)):
+            continue
+        outside += [q2 for c in ast.walk(f2) if isinstance(c, ast.Call) and (is_call(c, 'as_build') or is_call(c, 'as_host') or (is_call(c, 'evolve') and (kw_(c, 'machine') is not None or len(c.args) >= 3)))]
+    nbuild = nother = 0
+    bad: T.List[T.Tuple[S.SRow, str]] = []
+
+    def is_build_test(a: Atom) -> bool:
+        """`machine == MachineChoice.BUILD` / `machine is MachineChoice.BUILD` (enum members are singletons: the same test)"""
+        ops = a.args[1:] if a.kind == 'cmp' and a.args[0] == 'eq' else a.args if a.kind == 'is' else ()
+        return len(ops) == 2 and set(ops) == {M, 'MachineChoice.BUILD'}
+    for r in rows:
+        if r.outcome[0] == 'raise':
+            continue
+        if r.outcome[0] != 'return' or r.value is None:
+            raise Undecided(f'{qn}: a path ends without returning a key: {r!r}')
+        isb = [v for a, v in r.conds.items() if is_build_test(a)]
+        if len(isb) != 1:
+            raise Undecided(f'{qn}: the path {r!r} does not test whether the file is read for the build machine ({M} == MachineChoice.BUILD)')
+        foreign = [a for a in r.conds if M in repr(a) and not is_build_test(a)]
+        if foreign:
+            raise Undecided(f'{qn}: the machine is tested in an unknown way: {foreign}')
+        chain = _key_chain(r.value, M)
+        if chain is None:
+            raise Undecided(f'{qn}: the returned key is not built from OptionKey.from_string / evolve / as_build only: {short(r.value)}')
+        moves = [c for c in chain if c not in ('parsed', 'keep')]
+        if any(c.startswith('to:') for c in moves):
+            raise Undecided(f'{qn}: the key is moved to a machine this rule cannot name: {moves}')
+        final = moves[-1] if moves else 'parsed'
+        if isb[0]:
+            nbuild += 1
+            if final not in ('to-M', 'to-build'):
+                bad.append((r, f'a key read from the file of the BUILD machine (the native file of a cross build) is returned with {"the machine it was parsed with" if final == "parsed" else final}: '
+                               f'an un-prefixed entry stays a HOST key, so the native file overrides the cross file / default_options for the host machine; expected .evolve(machine={M})'))
+        else:
+            nother += 1
+            if final != 'parsed':
+                bad.append((r, f'a key read from a file that is NOT for the build machine is re-keyed ({final}): a `build.` prefixed entry of the cross file loses (or an entry gains) its machine; expected the parsed key'))
+    if bad and outside:
+        raise Undecided(f'{qn}: the returned key does not carry the machine of the file on {len(bad)} paths, but its callers {sorted(set(outside))} re-key keys themselves')
+    for r, msg in bad[:1]:
+        ctx.violation(mod, qn, f'return {norm(r.value)}', msg, fn, path=repr(r))
+    if not bad:
+        ctx.ok(f'{qn}: {nbuild} paths for the build machine return the key evolved to that machine, {nother} other paths return the key as parsed')
+    ctx.floor(f'{qn}: returning paths for the build machine', nbuild, 1)
+    ctx.floor(f'{qn}: returning paths for another machine', nother, 1)
 
 
 RULES = [
@@ -1888,4 +1996,5 @@ RULES = [
     Rule('C07.R7', 'prefix-dependent directory defaults', r7),
     Rule('C07.R8', 'a yielding option is linked only to a parent of exactly its own class', r8),
     Rule('C07.R9', 'pending values are applied when their option appears', r9),
+    Rule('C07.R10', 'machine-file keys of the build machine are build-machine keys', r10),
 ]
